@@ -483,8 +483,8 @@ func init() {
 		must = append(must, "kind_"+k)
 	}
 	mon.Register(&mon.Prop{
-		ID:   "C17",
-		Rule: "random object trees of all kinds built through every public constructor (NewPoint, NewPointZ, NewSimplePoint, NewLineString, NewPolygon, NewRect, NewCircle, NewMulti*, NewGeometryCollection, NewFeatureCollection, NewFeature) with ordinates from {finite classes, NaN, +-Inf, -0, subnormal, +-MaxFloat64}, Feature member strings from {random JSON objects with odd keys/whitespace/nesting, {}, { }, whitespace, arrays, strings, invalid JSON, a 'feature' key at top level or nested}, plus parsed objects with foreign members; every nested object is judged; AppendJSON is driven with random prefixes, spare capacities and an aliasing slice. Non-trivial = distinct generated tree.",
+		ID:          "C17",
+		Rule:        "random object trees of all kinds built through every public constructor (NewPoint, NewPointZ, NewSimplePoint, NewLineString, NewPolygon, NewRect, NewCircle, NewMulti*, NewGeometryCollection, NewFeatureCollection, NewFeature) with ordinates from {finite classes, NaN, +-Inf, -0, subnormal, +-MaxFloat64}, Feature member strings from {random JSON objects with odd keys/whitespace/nesting, {}, { }, whitespace, arrays, strings, invalid JSON, a 'feature' key at top level or nested}, plus parsed objects with foreign members; every nested object is judged; AppendJSON is driven with random prefixes, spare capacities and an aliasing slice. Non-trivial = distinct generated tree.",
 		Assumptions: []string{"member strings stay inside the property's domain: JSON object text without the reserved keys, or arbitrary non-object text", "decoded with encoding/json (UseNumber) as the reference JSON reader"},
 		Run:         c17Run,
 		MustSee:     must,
